@@ -242,8 +242,17 @@ _POOL_LIB = {}
 
 
 def f_ref(x):
-    """reference functor: injective on the ints used, so lost / duplicated / reordered results show"""
+    """reference functor: injective on the ints used, so lost / duplicated / reordered results show; container-valued elements
+    (an input element may itself be a list or a tuple) are mapped elementwise and keep their type"""
+    if isinstance(x, list):
+        return [f_ref(e) for e in x]
+    if isinstance(x, tuple):
+        return tuple(f_ref(e) for e in x)
     return 3 * x + 1
+
+
+def _freeze(x):
+    return tuple(_freeze(e) for e in x) if isinstance(x, (list, tuple)) else x
 
 
 def pool_lib():
@@ -354,10 +363,10 @@ def unordered_ok(values, cs, got):
     """got must be the concatenation of [f(x) for x in chunk] over a permutation of the chunks"""
     pending = {}
     for ch in chunks_of(values, cs):
-        pending.setdefault(tuple(f_ref(x) for x in ch), 0)
-        pending[tuple(f_ref(x) for x in ch)] += 1
+        pending.setdefault(tuple(_freeze(f_ref(x)) for x in ch), 0)
+        pending[tuple(_freeze(f_ref(x)) for x in ch)] += 1
     i = 0
-    got = list(got)
+    got = [_freeze(g) for g in got]
     while i < len(got):
         for ch in list(pending):
             if tuple(got[i:i + len(ch)]) == ch:
@@ -420,6 +429,10 @@ def do_call(pool, call):
     values = list(range(call.get("base", 10), call.get("base", 10) + call["n"]))
     if call.get("dups"):
         values = [v // 2 for v in values]
+    if call.get("elem") == "list":          # list-valued elements, one of them empty
+        values = [[] if k == 1 else ([v] if v % 2 else [v, v + 100]) for k, v in enumerate(values)]
+    elif call.get("elem") == "tuple":
+        values = [(v,) if v % 2 else (v, v + 100) for v in values]
     data = make_input(values, call.get("lazy", False), call.get("delays"), call.get("end_delay", 0.0))
     fn = pool.imap if call.get("ordered", True) else pool.imap_unordered
     return values, list(fn(data, call["cs"]))
@@ -432,7 +445,7 @@ def check_call(values, call, got):
         if got != exp:
             return exp, got
     elif not unordered_ok(values, call["cs"], got):
-        return {"multiset": sorted(exp), "chunks": [[f_ref(x) for x in c] for c in chunks_of(values, call["cs"])]}, got
+        return {"multiset": sorted(exp, key=repr), "chunks": [[f_ref(x) for x in c] for c in chunks_of(values, call["cs"])]}, got
     return None
 
 
